@@ -1,14 +1,24 @@
-(* Algorithm level: Value.getByPath of proto/generic/value.go AS CODED on the pinned tree
-   (searchFieldId / searchIndex / searchStrKey / searchIntKey / SkipAllElements / final slice),
-   transcribed statement by statement, including its defects. It is used by Check07 only to decide
-   whether a deviation from the spec (ProtoGeneric.plookup) is EXACTLY what the code is known to do
-   (known findings); expected values never come from here. *)
+(* Algorithm level: the read APIs of proto/generic AS CODED on the pinned tree, transcribed statement
+   by statement including their defects, and parameterised by the set of recorded defects that are
+   repaired ([fixes]: a flag set = the corresponding fix commit is applied; all flags off = the pinned
+   tree). Check07 uses this only to decide whether a deviation from the spec (ProtoGeneric.plookup) is
+   EXACTLY what a tree with some of the recorded defects does; expected values never come from here.
+     getByPath (value.go)           : gbp          flags 701 702 703 704 710
+     Field/FieldByName/Index/GetBy* : a_chain      flags 703 705
+     GetMany (Fields/Indexes/Gets)  : a_getmany    flags 703 707
+     PathNode.Load / Node.Children  : a_load       flags 706 711 (708 has no repair: as coded)
+     Value.Interface                : a_interface  flags 703 709 *)
 From Coq Require Import ZArith List Bool.
 From DG Require Import CaseFormat ProtoWireRef ProtoMsg ProtoGeneric.
 Import ListNotations.
 Local Open Scope Z_scope.
 
+Record fixes := mk_fixes { f701 : bool; f702 : bool; f703 : bool; f704 : bool; f705 : bool;
+                           f706 : bool; f707 : bool; f709 : bool; f710 : bool; f711 : bool }.
+Definition no_fixes : fixes := mk_fixes false false false false false false false false false false.
+
 Definition at_ (buf : list Z) (rd : Z) : list Z := skipn (Z.to_nat rd) buf.
+Definition slice (buf : list Z) (s e : Z) : list Z := firstn (Z.to_nat (e - s)) (at_ buf s).
 
 (* protowire.ConsumeVarint at the cursor *)
 Definition cvar (buf : list Z) (rd : Z) : option (Z * Z) :=
@@ -39,7 +49,7 @@ Definition askip (buf : list Z) (rd wt : Z) : skres :=
   else SkOk rd.
 
 Definition aread_length (buf : list Z) (rd : Z) : option (Z * Z) :=
-  match cvar buf rd with Some (v, n) => Some (v, rd + n) | None => None end.
+  match cvar buf rd with Some (v, n) => Some (to_s 64 v, rd + n) | None => None end.
 
 (* ReadString: (bytes, new cursor) *)
 Definition aread_string (buf : list Z) (rd : Z) : option (list Z * Z) :=
@@ -60,8 +70,71 @@ Definition aread_int (buf : list Z) (rd kk : Z) : option (Z * Z) :=
     (if rd + 8 <=? plen buf then Some (to_s 64 (le_dec 8 (at_ buf rd)), rd + 8) else None)
   else None.
 
+(* Type.IsInt *)
+Definition kind_is_int (k : Z) : bool :=
+  (k =? 5) || (k =? 3) || (k =? 15) || (k =? 16) || (k =? 18) || (k =? 17) || (k =? 13) || (k =? 4) || (k =? 7) || (k =? 6).
+
+(* TypeDescriptor.IsPacked(): decided by the element TYPE only *)
+Definition desc_packed (lbl : flabel) (t : ftype) : bool :=
+  match lbl with LRepeated _ => type_numeric t | _ => false end.
+Definition elem_wt (t : ftype) : Z := wt_of_kind (kind_of_type t).
+
+(* ------------------------------------------------------------------ SkipAllElements *)
+Inductive sares := SaOk (rd size : Z) | SaErr | SaPanic.
+
+(* pinned tree: every packed element is read with ReadVarint; fixed (703): skipped by the element wire type and
+   the run must end exactly at the end of the payload *)
+Fixpoint skip_all_packed (fuel : nat) (buf : list Z) (rd lim ewt cnt : Z) : sares :=
+  match fuel with
+  | O => SaErr
+  | S f =>
+    if rd <? lim then
+      match askip buf rd ewt with
+      | SkOk rd' => skip_all_packed f buf rd' lim ewt (cnt + 1)
+      | SkErr => SaErr
+      | SkPanic => SaPanic
+      end
+    else SaOk rd cnt
+  end.
+Fixpoint skip_all_unpacked (fuel : nat) (buf : list Z) (rd fnum cnt : Z) : sares :=
+  match fuel with
+  | O => SaErr
+  | S f =>
+    if rd <? plen buf then
+      match ctag buf rd with
+      | None => SaErr
+      | Some (num, ewt, n) =>
+        if negb (num =? fnum) then SaOk rd cnt
+        else match askip buf (rd + n) ewt with
+             | SkOk rd' => skip_all_unpacked f buf rd' fnum (cnt + 1)
+             | SkErr => SaErr
+             | SkPanic => SaPanic
+             end
+      end
+    else SaOk rd cnt
+  end.
+Definition skip_all_elements (fx : fixes) (buf : list Z) (rd fnum : Z) (packed : bool) (ewt : Z) : sares :=
+  if packed then
+    match ctag buf rd with
+    | None => SaErr
+    | Some (_, _, n) =>
+      match aread_length buf (rd + n) with
+      | None => SaErr
+      | Some (len, rd0) =>
+        if f703 fx then
+          if (len <? 0) || (rd0 + len >? plen buf) then SaErr
+          else match skip_all_packed (S (length buf)) buf rd0 (rd0 + len) ewt 0 with
+               | SaOk rd' c => if rd' =? rd0 + len then SaOk rd' c else SaErr
+               | r => r
+               end
+        else skip_all_packed (S (length buf)) buf rd0 (rd0 + len) 0 0
+      end
+    end
+  else skip_all_unpacked (S (length buf)) buf rd fnum 0.
+
+(* ------------------------------------------------------------------ getByPath *)
 (* outcome of a search function: found (returned offset, cursor) / errNotFound / an error that is a
-   generic.Node / any other error (the caller's err.(Node) then panics) *)
+   generic.Node / any other error (err.(Node) panics unless 710 is fixed) / a panic inside (invalid size) *)
 Inductive sres := SFound (start rd : Z) | SNotFound | SErrNode | SErrRaw | SPanic.
 
 Fixpoint search_field_id (fuel : nat) (buf : list Z) (rd id lim : Z) : sres :=
@@ -82,7 +155,7 @@ Fixpoint search_field_id (fuel : nat) (buf : list Z) (rd id lim : Z) : sres :=
     else SNotFound
   end.
 
-Fixpoint search_index_packed (fuel : nat) (buf : list Z) (rd lim idx ewt cnt : Z) : sres :=
+Fixpoint search_index_packed (fuel : nat) (fx : fixes) (buf : list Z) (rd lim idx ewt cnt : Z) : sres :=
   match fuel with
   | O => SErrRaw
   | S f =>
@@ -90,13 +163,17 @@ Fixpoint search_index_packed (fuel : nat) (buf : list Z) (rd lim idx ewt cnt : Z
       match askip buf rd ewt with
       | SkErr => SErrNode
       | SkPanic => SPanic
-      | SkOk rd' => search_index_packed f buf rd' lim idx ewt (cnt + 1)
+      | SkOk rd' => search_index_packed f fx buf rd' lim idx ewt (cnt + 1)
       end
+    else if f701 fx && (rd >=? lim) then SNotFound
     else if cnt <? idx then SNotFound else SFound rd rd
   end.
 
-Fixpoint search_index_unpacked (fuel : nat) (buf : list Z) (rd idx ewt fnum cnt result : Z) : sres :=
-  let finish (rd cnt result : Z) := if cnt <? idx then SNotFound else SFound result rd in
+(* exists (only consulted when 701 is fixed): after skipping an element, does another one follow? *)
+Fixpoint search_index_unpacked (fuel : nat) (fx : fixes) (buf : list Z) (rd idx ewt fnum cnt result : Z) (ex : bool) : sres :=
+  let finish (rd cnt result : Z) (ex : bool) :=
+    if f701 fx && negb ex then SNotFound
+    else if cnt <? idx then SNotFound else SFound result rd in
   match fuel with
   | O => SErrRaw
   | S f =>
@@ -110,22 +187,26 @@ Fixpoint search_index_unpacked (fuel : nat) (buf : list Z) (rd idx ewt fnum cnt 
           match ctag buf rd1 with
           | None => SErrRaw
           | Some (num, _, n) =>
-            if negb (num =? fnum) then finish rd1 cnt1 result
+            if negb (num =? fnum) then finish rd1 cnt1 result false
             else let rd2 := if cnt1 <? idx then rd1 + n else rd1 in
-                 search_index_unpacked f buf rd2 idx ewt fnum cnt1 (rd2 + n)
+                 search_index_unpacked f fx buf rd2 idx ewt fnum cnt1 (rd2 + n) true
           end
-        else finish rd1 cnt1 result
+        else finish rd1 cnt1 result false
       end
-    else finish rd cnt result
+    else finish rd cnt result ex
   end.
 
-Definition search_index (buf : list Z) (rd idx ewt : Z) (packed : bool) (fnum : Z) : sres :=
-  if packed then
+Definition search_index (fx : fixes) (buf : list Z) (rd idx ewt : Z) (packed : bool) (fnum : Z) : sres :=
+  if f701 fx && (idx <? 0) then SNotFound
+  else if packed then
     match aread_length buf rd with
     | None => SErrRaw
-    | Some (len, rd0) => search_index_packed (S (length buf)) buf rd0 (rd0 + len) idx ewt 0
+    | Some (len, rd0) => search_index_packed (S (length buf)) fx buf rd0 (rd0 + len) idx ewt 0
     end
-  else search_index_unpacked (S (length buf)) buf rd idx ewt fnum 0 rd.
+  else
+    (* 702 fixed: for index 0 the cursor steps back onto the element tag (the returned offset stays behind it) *)
+    let rd' := if f702 fx && (idx =? 0) then rd - plen (varint_enc (fnum * 8 + ewt)) else rd in
+    search_index_unpacked (S (length buf)) fx buf rd' idx ewt fnum 0 rd true.
 
 (* searchStrKey / searchIntKey share the loop; [rdkey] reads the key and says whether it matches *)
 Fixpoint search_key (fuel : nat) (buf : list Z) (rdkey : Z -> option (bool * Z)) (rd fnum : Z) : sres :=
@@ -165,62 +246,20 @@ Fixpoint search_key (fuel : nat) (buf : list Z) (rdkey : Z -> option (bool * Z))
     else SNotFound
   end.
 
-(* SkipAllElements: the packed branch reads every element with ReadVarint whatever the element kind *)
-Fixpoint skip_all_packed (fuel : nat) (buf : list Z) (rd lim : Z) : option Z :=
-  match fuel with
-  | O => None
-  | S f =>
-    if rd <? lim then
-      match cvar buf rd with Some (_, n) => skip_all_packed f buf (rd + n) lim | None => None end
-    else Some rd
-  end.
-Fixpoint skip_all_unpacked (fuel : nat) (buf : list Z) (rd fnum : Z) : option Z :=
-  match fuel with
-  | O => None
-  | S f =>
-    if rd <? plen buf then
-      match ctag buf rd with
-      | None => None
-      | Some (num, ewt, n) =>
-        if negb (num =? fnum) then Some rd
-        else match askip buf (rd + n) ewt with
-             | SkOk rd' => skip_all_unpacked f buf rd' fnum
-             | _ => None
-             end
-      end
-    else Some rd
-  end.
-Definition skip_all_elements (buf : list Z) (rd fnum : Z) (packed : bool) : option Z :=
-  if packed then
-    match ctag buf rd with
-    | None => None
-    | Some (_, _, n) =>
-      match aread_length buf (rd + n) with
-      | None => None
-      | Some (len, rd0) => skip_all_packed (S (length buf)) buf rd0 (rd0 + len)
-      end
-    end
-  else skip_all_unpacked (S (length buf)) buf rd fnum.
-
 Inductive gout :=
-| GFoundA (ty : Z) (raw : list Z)
+| GFoundA (ty : Z) (raw : list Z) (size : Z)
 | GNotFoundA       (* errNotFoundLast *)
 | GErrA            (* some error value *)
-| GPanicA          (* err.(Node) on an error that is not a Node *)
+| GPanicA
 | GUnmodelled.     (* a situation this transcription does not cover (ill-typed paths, unknown fields in the bytes) *)
 
-Definition slice (buf : list Z) (s e : Z) : list Z := firstn (Z.to_nat (e - s)) (at_ buf s).
-
-(* TypeDescriptor.IsPacked(): decided by the element TYPE only *)
-Definition desc_packed (lbl : flabel) (t : ftype) : bool :=
-  match lbl with LRepeated _ => type_numeric t | _ => false end.
-
 (* the part after the path loop *)
-Definition gbp_final (buf : list Z) (lbl : flabel) (t : ftype) (num : Z) (tt start rd : Z) : gout :=
+Definition gbp_final (fx : fixes) (buf : list Z) (lbl : flabel) (t : ftype) (num : Z) (tt start rd : Z) : gout :=
   if (tt =? T_LIST) || (tt =? T_MAP) then
-    match skip_all_elements buf rd num (desc_packed lbl t) with
-    | None => GPanicA
-    | Some rd' => GFoundA tt (slice buf start rd')
+    match skip_all_elements fx buf rd num (desc_packed lbl t) (elem_wt t) with
+    | SaErr => if f710 fx then GErrA else GPanicA
+    | SaPanic => GPanicA
+    | SaOk rd' size => GFoundA tt (slice buf start rd') size
     end
   else
     let after_tag :=
@@ -229,31 +268,30 @@ Definition gbp_final (buf : list Z) (lbl : flabel) (t : ftype) (num : Z) (tt sta
     match after_tag with
     | None => GErrA
     | Some (start', rd1) =>
-      match askip buf rd1 (wt_of_kind (kind_of_type t)) with
+      match askip buf rd1 (elem_wt t) with
       | SkErr => GErrA
       | SkPanic => GPanicA
-      | SkOk rd2 => if rd2 <? start' then GUnmodelled else GFoundA tt (slice buf start' rd2)
+      | SkOk rd2 => if rd2 <? start' then GUnmodelled else GFoundA tt (slice buf start' rd2) 0
       end
     end.
 
-Fixpoint gbp_loop (S : schema) (buf : list Z) (p : list pstep) (rd : Z) (isroot : bool)
+Fixpoint gbp_loop (fx : fixes) (S : schema) (buf : list Z) (p : list pstep) (rd : Z) (isroot : bool)
          (lbl : flabel) (t : ftype) (num : Z) {struct p} : gout :=
   match p with
   | [] => GUnmodelled
   | s :: p' =>
     let last := is_nil p' in
-    (* what to do with the search result, given the descriptor after the step and tt when found *)
-    let after (r : sres) (lbl' : flabel) (t' : ftype) (num' tt : Z) : gout :=
+    let after (buf : list Z) (r : sres) (lbl' : flabel) (t' : ftype) (num' tt : Z) : gout :=
       match r with
       | SFound start rd1 =>
-        if last then gbp_final buf lbl' t' num' tt start rd1
+        if last then gbp_final fx buf lbl' t' num' tt start rd1
         else match ctag buf rd1 with
              | None => GErrA
-             | Some (_, _, n) => gbp_loop S buf p' (rd1 + n) false lbl' t' num'
+             | Some (_, _, n) => gbp_loop fx S buf p' (rd1 + n) false lbl' t' num'
              end
       | SNotFound => if last then GNotFoundA else GErrA
       | SErrNode => GErrA
-      | SErrRaw => GPanicA
+      | SErrRaw => if f710 fx then GErrA else GPanicA
       | SPanic => GPanicA
       end in
     match s with
@@ -261,6 +299,8 @@ Fixpoint gbp_loop (S : schema) (buf : list Z) (p : list pstep) (rd : Z) (isroot 
       match (if isroot then Some (plen buf, rd) else aread_length buf rd) with
       | None => GErrA
       | Some (mlen, rd0) =>
+        (* 704 fixed: the read buffer is narrowed to the message of the field step *)
+        let buf' := if f704 fx && (0 <=? rd0 + mlen) && (rd0 + mlen <? plen buf) then firstn (Z.to_nat (rd0 + mlen)) buf else buf in
         match lbl, t with
         | LMap _, _ => GUnmodelled
         | _, TScalar _ => GUnmodelled
@@ -270,12 +310,12 @@ Fixpoint gbp_loop (S : schema) (buf : list Z) (p : list pstep) (rd : Z) (isroot 
           | Some md =>
             match s, step_field md s with
             | PField n, None =>
-              match search_field_id (Datatypes.S (length buf)) buf rd0 n (rd0 + mlen) with
+              match search_field_id (Datatypes.S (length buf')) buf' rd0 n (rd0 + mlen) with
               | SFound _ _ => GUnmodelled
-              | r => after r lbl t num K_MESSAGE
+              | r => after buf' r lbl t num K_MESSAGE
               end
             | _, Some fd =>
-              after (search_field_id (Datatypes.S (length buf)) buf rd0 (fd_num fd) (rd0 + mlen))
+              after buf' (search_field_id (Datatypes.S (length buf')) buf' rd0 (fd_num fd) (rd0 + mlen))
                     (fd_label fd) (fd_type fd) (fd_num fd) (node_type (fd_label fd) (fd_type fd))
             | _, None => GErrA      (* field name not in the descriptor *)
             end
@@ -285,14 +325,13 @@ Fixpoint gbp_loop (S : schema) (buf : list Z) (p : list pstep) (rd : Z) (isroot 
     | PIndex i =>
       match lbl with
       | LRepeated _ =>
-        after (search_index buf rd i (wt_of_kind (kind_of_type t)) (type_numeric t) num)
-              lbl t num (kind_of_type t)
+        after buf (search_index fx buf rd i (elem_wt t) (type_numeric t) num) lbl t num (kind_of_type t)
       | _ => GUnmodelled
       end
     | PStrKey k =>
       match lbl with
       | LMap _ =>
-        after (search_key (Datatypes.S (length buf)) buf
+        after buf (search_key (Datatypes.S (length buf)) buf
                  (fun r => match aread_string buf r with
                            | Some (b, r') => Some (bytes_eqb b k, r')
                            | None => None
@@ -303,7 +342,7 @@ Fixpoint gbp_loop (S : schema) (buf : list Z) (p : list pstep) (rd : Z) (isroot 
     | PIntKey k =>
       match lbl with
       | LMap kk =>
-        after (search_key (Datatypes.S (length buf)) buf
+        after buf (search_key (Datatypes.S (length buf)) buf
                  (fun r => match aread_int buf r kk with
                            | Some (x, r') => Some (x =? k, r')
                            | None => None
@@ -314,8 +353,770 @@ Fixpoint gbp_loop (S : schema) (buf : list Z) (p : list pstep) (rd : Z) (isroot 
     end
   end.
 
-Definition gbp (S : schema) (root : list Z) (buf : list Z) (p : list pstep) : gout :=
+Definition gbp (fx : fixes) (S : schema) (root : list Z) (buf : list Z) (p : list pstep) : gout :=
   match p with
-  | [] => GFoundA K_MESSAGE buf
-  | _ => gbp_loop S buf p 0 true LSingular (TMsg root) 0
+  | [] => GFoundA K_MESSAGE buf 0
+  | _ => gbp_loop fx S buf p 0 true LSingular (TMsg root) 0
+  end.
+
+(* ------------------------------------------------------------------ nodes and the single-step APIs *)
+(* a Value: node type, raw bytes, element count (0 = lazily loaded), IsRoot, and its descriptor *)
+Record anode := mk_anode { an_t : Z; an_raw : list Z; an_size : Z; an_root : bool;
+                           an_lbl : flabel; an_ty : ftype; an_num : Z }.
+Inductive ares :=
+| ANode (n : anode)
+| ABroken (t : Z)      (* a node with a negative length: Raw() panics *)
+| ANotFound | AErr | APanic | AUnmod.
+
+Definition msg_of (n : anode) (S : schema) : option mdesc :=
+  match an_ty n with TMsg name => find_msg S name | TScalar _ => None end.
+
+(* Node.Field / Value.FieldByName: iterate the fields of the message node *)
+Fixpoint a_field_loop (fuel : nat) (fx : fixes) (raw : list Z) (rd : Z) (fd : fdesc) : ares :=
+  match fuel with
+  | O => AErr
+  | S f =>
+    if rd <? plen raw then
+      match ctag raw rd with
+      | None => AErr
+      | Some (num, wt, n) =>
+        match askip raw (rd + n) wt with
+        | SkErr => AErr
+        | SkPanic => APanic
+        | SkOk e =>
+          if num =? fd_num fd then
+            match fd_label fd with
+            | LSingular =>
+              if wt =? elem_wt (fd_type fd)
+              then ANode (mk_anode (kind_of_type (fd_type fd)) (slice raw (rd + n) e) 0 false LSingular (fd_type fd) (fd_num fd))
+              else AErr
+            | lbl =>
+              match skip_all_elements fx raw rd (fd_num fd) (desc_packed lbl (fd_type fd)) (elem_wt (fd_type fd)) with
+              | SaOk e' _ => ANode (mk_anode (node_type lbl (fd_type fd)) (slice raw rd e') 0 false lbl (fd_type fd) (fd_num fd))
+              | SaErr => AErr
+              | SaPanic => APanic
+              end
+            end
+          else a_field_loop f fx raw e fd
+        end
+      end
+    else ANotFound
+  end.
+
+Definition a_field (fx : fixes) (S : schema) (n : anode) (s : pstep) : ares :=
+  if negb (an_t n =? K_MESSAGE) then AErr else
+  match an_lbl n, msg_of n S with
+  | LSingular, Some md =>
+    match step_field md s with
+    | None => AErr
+    | Some fd =>
+      match (if an_root n then Some (0, 0) else aread_length (an_raw n) 0) with
+      | None => AErr
+      | Some (_, rd) => a_field_loop (Datatypes.S (length (an_raw n))) fx (an_raw n) rd fd
+      end
+    end
+  | _, _ => AUnmod
+  end.
+
+(* listIterator.Next: (start, end, cursor after) or an error / panic *)
+Inductive itres := ItOk (s e rd : Z) | ItErrTag | ItErrSkip (s : Z) | ItPanic.
+Definition list_next (raw : list Z) (rd ewt : Z) (packed : bool) : itres :=
+  let go (start : Z) :=
+    match askip raw start ewt with
+    | SkOk e => ItOk start e e
+    | SkErr => ItErrSkip start
+    | SkPanic => ItPanic
+    end in
+  if packed then go rd
+  else match ctag raw rd with Some (_, _, n) => go (rd + n) | None => ItErrTag end.
+
+Fixpoint list_advance (fuel : nat) (raw : list Z) (rd ewt : Z) (packed : bool) (j idx : Z) : option (option (Z * Z)) :=
+  (* Some (Some (rd, k)) after skipping; Some None = iterator error; None = panic *)
+  match fuel with
+  | O => Some None
+  | S f =>
+    if (rd <? plen raw) && (j <? idx) then
+      match list_next raw rd ewt packed with
+      | ItOk _ _ rd' => list_advance f raw rd' ewt packed (j + 1) idx
+      | ItPanic => None
+      | _ => Some None
+      end
+    else Some (Some (rd, j))
+  end.
+
+Definition a_index (fx : fixes) (n : anode) (idx : Z) : ares :=
+  if negb (an_t n =? T_LIST) then AErr else
+  if f705 fx && (idx <? 0) then AErr else
+  let raw := an_raw n in
+  match ctag raw 0 with
+  | None => AErr
+  | Some (_, wt0, _) =>
+    if negb (wt0 =? 2) then AErr else
+    let et := kind_of_type (an_ty n) in
+    let ewt := elem_wt (an_ty n) in
+    let packed := type_numeric (an_ty n) in
+    if (an_size n >? 0) && (idx >=? an_size n) then AErr else
+    let start0 :=
+      if packed then
+        match ctag raw 0 with
+        | Some (_, _, tn) => match aread_length raw tn with Some (_, r) => Some r | None => None end
+        | None => None
+        end
+      else Some 0 in
+    match start0 with
+    | None => AErr
+    | Some rd0 =>
+      match list_advance (S (length raw)) raw rd0 ewt packed 0 idx with
+      | None => APanic
+      | Some None => AErr
+      | Some (Some (rd, k)) =>
+        if (idx >? k) || (f705 fx && negb (rd <? plen raw)) then AErr
+        else
+          let elem (s e : Z) := ANode (mk_anode et (slice raw s e) 0 false LSingular (an_ty n) 0) in
+          match list_next raw rd ewt packed with
+          | ItOk s e _ => elem s e
+          | ItErrTag => elem 0 0                     (* Next() returned the zero offsets: an empty node *)
+          | ItErrSkip s => if s =? 0 then elem 0 0 else ABroken et
+          | ItPanic => APanic
+          end
+      end
+    end
+  end.
+
+(* mapIterator.NextStr / NextInt: (key matches, value start, value end, cursor) *)
+Inductive pairres := PrOk (key : mkey) (s e rd : Z) | PrErr | PrPanic.
+Definition pair_next (raw : list Z) (rd kk vwt : Z) : pairres :=
+  match ctag raw rd with
+  | None => PrErr
+  | Some (_, _, n0) =>
+    match aread_length raw (rd + n0) with
+    | None => PrErr
+    | Some (_, rd1) =>
+      match ctag raw rd1 with
+      | None => PrErr
+      | Some (_, kwt, n1) =>
+        if negb (kwt =? wt_of_kind kk) then PrErr else
+        let key :=
+          if kk =? 9 then match aread_string raw (rd1 + n1) with Some (b, r) => Some (KStr b, r) | None => None end
+          else match aread_int raw (rd1 + n1) kk with Some (x, r) => Some (KInt kk x, r) | None => None end in
+        match key with
+        | None => PrErr
+        | Some (k, rd2) =>
+          match ctag raw rd2 with
+          | None => PrErr
+          | Some (_, ewt, n2) =>
+            if negb (ewt =? vwt) then PrErr else
+            match askip raw (rd2 + n2) vwt with
+            | SkOk e => PrOk k (rd2 + n2) e e
+            | SkErr => PrErr
+            | SkPanic => PrPanic
+            end
+          end
+        end
+      end
+    end
+  end.
+
+Definition key_is (s : pstep) (k : mkey) : bool :=
+  match s, k with
+  | PStrKey a, KStr b => bytes_eqb a b
+  | PIntKey i, KInt _ x => x =? i          (* x is already the Go int image *)
+  | _, _ => false
+  end.
+
+Fixpoint a_getkey_loop (fuel : nat) (raw : list Z) (rd kk vwt : Z) (s : pstep) (vt : ftype) : ares :=
+  match fuel with
+  | O => AErr
+  | S f =>
+    if rd <? plen raw then
+      match pair_next raw rd kk vwt with
+      | PrErr => AErr
+      | PrPanic => APanic
+      | PrOk k vs ve rd' =>
+        if key_is s k then ANode (mk_anode (kind_of_type vt) (slice raw vs ve) 0 false LSingular vt 0)
+        else a_getkey_loop f raw rd' kk vwt s vt
+      end
+    else ANotFound
+  end.
+
+Definition a_getkey (n : anode) (s : pstep) : ares :=
+  if negb (an_t n =? T_MAP) then AErr else
+  match an_lbl n with
+  | LMap kk =>
+    let kind_ok := match s with PStrKey _ => kk =? 9 | PIntKey _ => kind_is_int kk | _ => false end in
+    if negb kind_ok then AErr else
+    match ctag (an_raw n) 0 with
+    | None => AErr
+    | Some (_, wt0, _) =>
+      if negb (wt0 =? 2) then AErr
+      else a_getkey_loop (S (length (an_raw n))) (an_raw n) 0 kk (elem_wt (an_ty n)) s (an_ty n)
+    end
+  | _ => AUnmod
+  end.
+
+Definition a_step (fx : fixes) (S : schema) (n : anode) (s : pstep) : ares :=
+  match s with
+  | PField _ | PName _ => a_field fx S n s
+  | PIndex i => a_index fx n i
+  | PStrKey _ | PIntKey _ => a_getkey n s
+  end.
+
+(* the harness chains the single-step APIs and stops at the first error value *)
+Fixpoint a_chain (fx : fixes) (S : schema) (n : anode) (p : list pstep) : ares :=
+  match p with
+  | [] => ANode n
+  | s :: p' =>
+    match a_step fx S n s with
+    | ANode n' => a_chain fx S n' p'
+    | ABroken t => match p' with [] => ABroken t | _ => AUnmod end
+    | r => r
+    end
+  end.
+
+Definition root_node (root : list Z) (buf : list Z) : anode :=
+  mk_anode K_MESSAGE buf 0 true LSingular (TMsg root) 0.
+
+(* ------------------------------------------------------------------ GetMany *)
+(* result per requested path: Some node bytes / None (left untouched); or the whole call fails *)
+Inductive mres := MOk (l : list (option (Z * list Z))) | MErr | MPanic | MUnmod.
+
+Fixpoint set_first {A} (p : nat -> bool) (x : A) (i : nat) (l : list (option A)) : list (option A) * bool :=
+  match l with
+  | [] => ([], false)
+  | y :: r => if p i then (Some x :: r, true)
+              else let '(r', b) := set_first p x (Datatypes.S i) r in (y :: r', b)
+  end.
+
+Definition req_matches (reqs : list pstep) (f : pstep -> bool) (i : nat) : bool :=
+  match nth_error reqs i with Some s => f s | None => false end.
+
+Fixpoint a_fields_loop (fuel : nat) (fx : fixes) (md : mdesc) (raw : list Z) (rd : Z) (reqs : list pstep)
+         (acc : list (option (Z * list Z))) (count need : Z) : mres :=
+  match fuel with
+  | O => MErr
+  | S f =>
+    if (rd <? plen raw) && (count <? need) then
+      match ctag raw rd with
+      | None => MErr
+      | Some (num, wt, n) =>
+        match askip raw (rd + n) wt with
+        | SkErr => MErr
+        | SkPanic => MPanic
+        | SkOk e =>
+          match find_field md num with
+          | None => MPanic                                  (* f.Type() on a nil descriptor *)
+          | Some fd =>
+            let hit :=
+              match fd_label fd with
+              | LSingular => Some (kind_of_type (fd_type fd), slice raw (rd + n) e, e)
+              | lbl =>
+                match skip_all_elements fx raw rd num (desc_packed lbl (fd_type fd)) (elem_wt (fd_type fd)) with
+                | SaOk e' _ => Some (node_type lbl (fd_type fd), slice raw rd e', e')
+                | _ => None
+                end
+              end in
+            match hit with
+            | None => MErr
+            | Some (ty, bytes, e') =>
+              let '(acc', b) := set_first (req_matches reqs (fun s => match s with PField k => k =? num | _ => false end))
+                                          (ty, bytes) O acc in
+              a_fields_loop f fx md raw e' reqs acc' (if b then count + 1 else count) need
+            end
+          end
+        end
+      end
+    else MOk acc
+  end.
+
+Fixpoint a_indexes_loop (fuel : nat) (raw : list Z) (rd ewt : Z) (packed : bool) (et size : Z) (reqs : list pstep)
+         (acc : list (option (Z * list Z))) (i count need : Z) : mres :=
+  match fuel with
+  | O => MErr
+  | S f =>
+    if (rd <? plen raw) && (count <? need) then
+      match list_next raw rd ewt packed with
+      | ItOk s e rd' =>
+        let '(acc', b) := set_first (req_matches reqs (fun st => match st with PIndex k => negb (k >=? size) && (k =? i) | _ => false end))
+                                    (et, slice raw s e) O acc in
+        a_indexes_loop f raw rd' ewt packed et size reqs acc' (i + 1) (if b then count + 1 else count) need
+      | ItPanic => MPanic
+      | _ => MErr
+      end
+    else MOk acc
+  end.
+
+(* Node.Gets as coded: a NEW pair is read for every requested key and compared with that key only;
+   fixed (707): one pair per round, compared with every key *)
+Fixpoint a_gets_inner (raw : list Z) (kk vwt et : Z) (reqs : list pstep) (j : nat) (rd : Z)
+         (acc : list (option (Z * list Z))) : option (option (Z * list (option (Z * list Z)) * bool)) :=
+  (* None = panic; Some None = error; Some (Some (rd, acc, found)) *)
+  match reqs with
+  | [] => Some (Some (rd, acc, false))
+  | s :: reqs' =>
+    match s with
+    | PStrKey _ | PIntKey _ =>
+      let kind_ok := match s with PStrKey _ => kk =? 9 | _ => kind_is_int kk end in
+      if negb kind_ok then Some None else
+      match pair_next raw rd kk vwt with
+      | PrErr => Some None
+      | PrPanic => None
+      | PrOk k vs ve rd' =>
+        if key_is s k then
+          let '(acc', _) := set_first (fun i => Nat.eqb i j) (et, slice raw vs ve) O acc in
+          Some (Some (rd', acc', true))
+        else a_gets_inner raw kk vwt et reqs' (Datatypes.S j) rd' acc
+      end
+    | _ => a_gets_inner raw kk vwt et reqs' (Datatypes.S j) rd acc
+    end
+  end.
+
+Fixpoint a_gets_loop (fuel : nat) (fx : fixes) (raw : list Z) (kk vwt et : Z) (reqs : list pstep) (rd : Z)
+         (acc : list (option (Z * list Z))) (count need : Z) : mres :=
+  match fuel with
+  | O => MErr
+  | S f =>
+    if (rd <? plen raw) && (count <? need) then
+      if f707 fx then
+        match pair_next raw rd kk vwt with
+        | PrErr => MErr
+        | PrPanic => MPanic
+        | PrOk k vs ve rd' =>
+          let '(acc', b) := set_first (req_matches reqs (fun s => key_is s k)) (et, slice raw vs ve) O acc in
+          a_gets_loop f fx raw kk vwt et reqs rd' acc' (if b then count + 1 else count) need
+        end
+      else
+        match a_gets_inner raw kk vwt et reqs O rd acc with
+        | None => MPanic
+        | Some None => MErr
+        | Some (Some (rd', acc', b)) =>
+          if rd' =? rd then MOk acc'        (* no key step among the requests: the Go loop would spin; not generated *)
+          else a_gets_loop f fx raw kk vwt et reqs rd' acc' (if b then count + 1 else count) need
+        end
+    else MOk acc
+  end.
+
+Definition a_getmany (fx : fixes) (S : schema) (n : anode) (reqs : list pstep) : mres :=
+  let acc0 := map (fun _ => @None (Z * list Z)) reqs in
+  let need := plen reqs in
+  let raw := an_raw n in
+  match reqs with
+  | [] => MOk []
+  | PField _ :: _ =>
+    if negb (an_t n =? K_MESSAGE) then MErr else
+    match msg_of n S with
+    | None => MUnmod
+    | Some md =>
+      match (if an_root n then Some (0, 0) else aread_length raw 0) with
+      | None => MErr
+      | Some (_, rd) => a_fields_loop (Datatypes.S (length raw)) fx md raw rd reqs acc0 0 need
+      end
+    end
+  | PIndex _ :: _ =>
+    if negb (an_t n =? T_LIST) then MErr else
+    match ctag raw 0 with
+    | None => MErr
+    | Some (_, wt0, tn) =>
+      if negb (wt0 =? 2) then MErr else
+      let packed := type_numeric (an_ty n) in
+      let rd0 := if packed then match aread_length raw tn with Some (_, r) => Some r | None => None end else Some 0 in
+      match rd0 with
+      | None => MErr
+      | Some rd => a_indexes_loop (Datatypes.S (length raw)) raw rd (elem_wt (an_ty n)) packed (kind_of_type (an_ty n))
+                                  (an_size n) reqs acc0 0 0 need
+      end
+    end
+  | PStrKey _ :: _ | PIntKey _ :: _ =>
+    if negb (an_t n =? T_MAP) then MErr else
+    match an_lbl n, ctag raw 0 with
+    | LMap kk, Some (_, wt0, _) =>
+      if negb (wt0 =? 2) then MErr
+      else a_gets_loop (Datatypes.S (length raw)) fx raw kk (elem_wt (an_ty n)) (kind_of_type (an_ty n)) reqs 0 acc0 0 need
+    | LMap _, None => MErr
+    | _, _ => MUnmod
+    end
+  | PName _ :: _ => MErr
+  end.
+
+(* ------------------------------------------------------------------ PathNode.Load / Node.Children *)
+Inductive atree := ATree (step : pstep) (t : Z) (raw : list Z) (kids : list atree).
+Inductive tres := TOk (kids : list atree) (rd : Z) | TErr | TPanic | TUnmod.
+
+(* the "skip the remaining records with the same number" loop of handleChild / handleUnknownChild *)
+Fixpoint same_number_run (fuel : nat) (buf : list Z) (rd fnum : Z) : skres :=
+  match fuel with
+  | O => SkErr
+  | S f =>
+    if rd <? plen buf then
+      match ctag buf rd with
+      | None => SkErr
+      | Some (num, wt, n) =>
+        if negb (num =? fnum) then SkOk rd
+        else match askip buf (rd + n) wt with
+             | SkOk rd' => same_number_run f buf rd' fnum
+             | r => r
+             end
+      end
+    else SkOk rd
+  end.
+
+Section Scan.
+  Variable fx : fixes.
+  Variable S : schema.
+  Variable recurse : bool.
+  (* scanChildren at the next smaller nesting fuel: node type, descriptor, buffer, cursor, messageLen *)
+  Variable scan : Z -> flabel -> ftype -> Z -> list Z -> Z -> Z -> tres.
+
+  (* handleChild: the child described by (lbl,t,num) starts at rd (its tag of length tagL just consumed);
+     parent_list = the parent node is a LIST (the child is then an element) *)
+  Definition handle_child (buf : list Z) (rd tagL : Z) (lbl : flabel) (t : ftype) (num : Z) (step : pstep)
+    : option (atree * Z) + Z :=       (* inl (Some (child, cursor)) | inl None = error | inr 0 panic | inr 1 unmodelled *)
+    let tt := node_type lbl t in
+    let islm := (tt =? T_LIST) || (tt =? T_MAP) in
+    let start := if islm then rd - tagL else rd in
+    let skipt := if islm then 2 else elem_wt t in
+    if start <? 0 then inl None else
+    match askip buf rd skipt with
+    | SkErr => inl None
+    | SkPanic => inr 0
+    | SkOk rd1 =>
+      let run := if ((tt =? T_LIST) && negb (desc_packed lbl t)) || (tt =? T_MAP)
+                 then same_number_run (Datatypes.S (length buf)) buf rd1 num else SkOk rd1 in
+      match run with
+      | SkErr => inl None
+      | SkPanic => inr 0
+      | SkOk rd2 =>
+        let bytes := slice buf start rd2 in
+        if recurse && ((tt =? K_MESSAGE) || islm) then
+          (* 711 fixed: the recursive scan gets the child's bytes only, not the rest of the parent buffer *)
+          let sub := if f711 fx then slice buf start rd2 else at_ buf start in
+          let go (mlen rd0 : Z) :=
+            match scan tt lbl t num sub rd0 mlen with
+            | TOk kids srd => inl (Some (ATree step tt bytes kids, start + srd))
+            | TErr => inl None
+            | TPanic => inr 0
+            | TUnmod => inr 1
+            end in
+          if tt =? K_MESSAGE then
+            match aread_length sub 0 with
+            | None => inl None
+            | Some (mlen, rd0) =>
+              if (if f706 fx then mlen <? 0 else mlen <=? 0) then inl None else go mlen rd0
+            end
+          else go 0 0
+        else inl (Some (ATree step tt bytes [], rd2))
+      end
+    end.
+
+  (* handleUnknownChild *)
+  Definition handle_unknown (buf : list Z) (rd tagL num wt : Z) : option (atree * Z) + Z :=
+    match askip buf rd wt with
+    | SkErr => inl None
+    | SkPanic => inr 0
+    | SkOk rd1 =>
+      match same_number_run (Datatypes.S (length buf)) buf rd1 num with
+      | SkErr => inl None
+      | SkPanic => inr 0
+      | SkOk rd2 => inl (Some (ATree (PField num) 0 (slice buf (rd - tagL) rd2) [], rd2))
+      end
+    end.
+
+  Definition lift (r : option (atree * Z) + Z) (k : atree -> Z -> tres) : tres :=
+    match r with
+    | inl (Some (c, rd)) => k c rd
+    | inl None => TErr
+    | inr 0 => TPanic
+    | inr _ => TUnmod
+    end.
+  Definition tcons (c : atree) (r : tres) : tres :=
+    match r with TOk l rd => TOk (c :: l) rd | e => e end.
+
+  Fixpoint scan_msg (fuel : nat) (md : mdesc) (buf : list Z) (rd lim : Z) : tres :=
+    match fuel with
+    | O => TErr
+    | Datatypes.S f =>
+      if rd <? lim then
+        match ctag buf rd with
+        | None => TErr
+        | Some (num, wt, n) =>
+          match find_field md num with
+          | Some fd => lift (handle_child buf (rd + n) n (fd_label fd) (fd_type fd) (fd_num fd) (PField num))
+                            (fun c rd' => tcons c (scan_msg f md buf rd' lim))
+          | None => lift (handle_unknown buf (rd + n) n num wt)
+                         (fun c rd' => tcons c (scan_msg f md buf rd' lim))
+          end
+        end
+      else TOk [] rd
+    end.
+
+  Fixpoint scan_packed (fuel : nat) (t : ftype) (buf : list Z) (rd lim llen i : Z) : tres :=
+    match fuel with
+    | O => TErr
+    | Datatypes.S f =>
+      if rd <? lim then
+        lift (handle_child buf rd llen LSingular t 0 (PIndex i))
+             (fun c rd' => tcons c (scan_packed f t buf rd' lim llen (i + 1)))
+      else TOk [] rd
+    end.
+
+  Fixpoint scan_unpacked (fuel : nat) (t : ftype) (buf : list Z) (rd fnum i : Z) : tres :=
+    match fuel with
+    | O => TErr
+    | Datatypes.S f =>
+      if rd <? plen buf then
+        match ctag buf rd with
+        | None => TErr
+        | Some (num, _, n) =>
+          if negb (num =? fnum) then TOk [] rd
+          else lift (handle_child buf (rd + n) n LSingular t 0 (PIndex i))
+                    (fun c rd' => tcons c (scan_unpacked f t buf rd' fnum (i + 1)))
+        end
+      else TOk [] rd
+    end.
+
+  Fixpoint scan_map (fuel : nat) (kk : Z) (t : ftype) (buf : list Z) (rd fnum : Z) : tres :=
+    match fuel with
+    | O => TErr
+    | Datatypes.S f =>
+      if rd <? plen buf then
+        match ctag buf rd with
+        | None => TErr
+        | Some (num, _, n) =>
+          if negb (num =? fnum) then TOk [] rd else
+          match aread_length buf (rd + n) with
+          | None => TErr
+          | Some (plen_, rd1) =>
+            if plen_ <=? 0 then TErr else
+            match ctag buf rd1 with
+            | None => TErr
+            | Some (_, _, n1) =>
+              let key :=
+                if kk =? 9 then match aread_string buf (rd1 + n1) with Some (b, r) => Some (PStrKey b, r) | None => None end
+                else if kind_is_int kk then match aread_int buf (rd1 + n1) kk with Some (x, r) => Some (PIntKey x, r) | None => None end
+                else None in
+              match key with
+              | None => TErr
+              | Some (kstep, rd2) =>
+                match ctag buf rd2 with
+                | None => TErr
+                | Some (_, _, n2) =>
+                  lift (handle_child buf (rd2 + n2) n2 LSingular t 0 kstep)
+                       (fun c rd' => tcons c (scan_map f kk t buf rd' fnum))
+                end
+              end
+            end
+          end
+        end
+      else TOk [] rd
+    end.
+
+  (* scanChildren: dispatch on the NODE type *)
+  Definition scan_children (tt : Z) (lbl : flabel) (t : ftype) (num : Z) (buf : list Z) (rd mlen : Z) : tres :=
+    let fuel := Datatypes.S (length buf) in
+    if tt =? K_MESSAGE then
+      match t with
+      | TMsg name => match find_msg S name with
+                     | Some md => scan_msg fuel md buf rd (rd + mlen)
+                     | None => TUnmod
+                     end
+      | TScalar _ => TUnmod
+      end
+    else if tt =? T_LIST then
+      if type_numeric t then
+        match ctag buf rd with
+        | None => TErr
+        | Some (_, _, n) =>
+          match aread_length buf (rd + n) with
+          | None => TErr
+          | Some (llen, rd0) => scan_packed fuel t buf rd0 (rd0 + llen) llen 0
+          end
+        end
+      else scan_unpacked fuel t buf rd num 0
+    else if tt =? T_MAP then
+      match lbl with LMap kk => scan_map fuel kk t buf rd num | _ => TUnmod end
+    else TErr.
+End Scan.
+
+Fixpoint a_scan (fuel : nat) (fx : fixes) (S : schema) (recurse : bool)
+         (tt : Z) (lbl : flabel) (t : ftype) (num : Z) (buf : list Z) (rd mlen : Z) : tres :=
+  match fuel with
+  | O => TErr
+  | Datatypes.S f => scan_children fx S recurse (a_scan f fx S recurse) tt lbl t num buf rd mlen
+  end.
+
+(* PathNode.Load(recurse, opts, desc) on a node: scanChildren from offset 0 with messageLen = len(raw) *)
+Definition a_load (fx : fixes) (S : schema) (recurse : bool) (n : anode) : tres :=
+  a_scan (Datatypes.S (length (an_raw n))) fx S recurse (an_t n) (an_lbl n) (an_ty n) (an_num n) (an_raw n) 0 (plen (an_raw n)).
+
+Definition step_eqb (a b : pstep) : bool :=
+  match a, b with
+  | PField x, PField y => x =? y
+  | PIndex x, PIndex y => x =? y
+  | PIntKey x, PIntKey y => x =? y
+  | PStrKey x, PStrKey y => bytes_eqb x y
+  | _, _ => false
+  end.
+Fixpoint find_kid (s : pstep) (l : list atree) : option atree :=
+  match l with
+  | [] => None
+  | ATree st t raw kids :: r => if step_eqb st s then Some (ATree st t raw kids) else find_kid s r
+  end.
+Fixpoint walk_tree (l : list atree) (p : list pstep) : option (Z * list Z) :=
+  match p with
+  | [] => None
+  | s :: p' =>
+    match find_kid s l with
+    | None => None
+    | Some (ATree _ t raw kids) => match p' with [] => Some (t, raw) | _ => walk_tree kids p' end
+    end
+  end.
+
+(* ------------------------------------------------------------------ Value.Interface *)
+Inductive ires := IOk (g : gval) | IErr | IPanic | IUnmod.
+
+Definition upsert_z {B} (k : Z) (v : B) (l : list (Z * B)) : list (Z * B) :=
+  (fix go (l : list (Z * B)) := match l with
+     | [] => [(k, v)]
+     | (k', v') :: r => if k' =? k then (k, v) :: r else (k', v') :: go r end) l.
+Definition upsert_b {B} (k : list Z) (v : B) (l : list (list Z * B)) : list (list Z * B) :=
+  (fix go (l : list (list Z * B)) := match l with
+     | [] => [(k, v)]
+     | (k', v') :: r => if bytes_eqb k' k then (k, v) :: r else (k', v') :: go r end) l.
+
+Definition scalar_interface (fx : fixes) (k : Z) (raw : list Z) : ires :=
+  let u := match cvar raw 0 with Some (v, _) => v | None => 0 end in
+  if is_signed_kind k && negb (k =? 15) && negb (k =? 16) then IOk (GInt (scalar_of_u k u))
+  else if k =? 15 then IOk (GInt (to_s 32 (le_dec 4 raw)))
+  else if k =? 16 then IOk (GInt (to_s 64 (le_dec 8 raw)))
+  else if (k =? 13) || (k =? 4) then IOk (GUint (scalar_of_u k u))
+  else if k =? 7 then IOk (GUint (le_dec 4 raw))
+  else if k =? 6 then IOk (GUint (le_dec 8 raw))
+  else if k =? 1 then IOk (GF64 (le_dec 8 raw))
+  else if k =? 2 then (if f709 fx then IOk (GF32 (le_dec 4 raw)) else IErr)
+  else if k =? 8 then IOk (GBool (if u =? 0 then 0 else 1))
+  else if k =? 9 then IOk (GStr (match aread_string raw 0 with Some (b, _) => b | None => [] end))
+  else if k =? 12 then IOk (GBin (match aread_string raw 0 with Some (b, _) => b | None => [] end))
+  else IErr.
+
+Section Iface.
+  Variable fx : fixes.
+  Variable S : schema.
+  Variable rec : anode -> ires.
+
+  Fixpoint if_msg (fuel : nat) (md : mdesc) (raw : list Z) (rd : Z) (acc : list (Z * gval)) : ires :=
+    match fuel with
+    | O => IErr
+    | Datatypes.S f =>
+      if rd <? plen raw then
+        match ctag raw rd with
+        | None => IErr
+        | Some (num, wt, n) =>
+          match askip raw (rd + n) wt with
+          | SkErr => IErr
+          | SkPanic => IPanic
+          | SkOk e =>
+            match find_field md num with
+            | None => IErr
+            | Some fd =>
+              let sub :=
+                match fd_label fd with
+                | LSingular => Some (mk_anode (kind_of_type (fd_type fd)) (slice raw (rd + n) e) 0 false LSingular (fd_type fd) num, e)
+                | lbl =>
+                  match skip_all_elements fx raw rd num (desc_packed lbl (fd_type fd)) (elem_wt (fd_type fd)) with
+                  | SaOk e' _ => Some (mk_anode (node_type lbl (fd_type fd)) (slice raw rd e') 0 false lbl (fd_type fd) num, e')
+                  | SaErr => None
+                  | SaPanic => None
+                  end
+                end in
+              match sub with
+              | None => IErr
+              | Some (nd, e') =>
+                match rec nd with
+                | IOk g => if_msg f md raw e' (upsert_z num g acc)
+                | r => r
+                end
+              end
+            end
+          end
+        end
+      else IOk (GMapI acc)
+    end.
+
+  Fixpoint if_list (fuel : nat) (raw : list Z) (rd ewt : Z) (packed : bool) (t : ftype) (acc : list gval) : ires :=
+    match fuel with
+    | O => IErr
+    | Datatypes.S f =>
+      if rd <? plen raw then
+        match list_next raw rd ewt packed with
+        | ItOk s e rd' =>
+          match rec (mk_anode (kind_of_type t) (slice raw s e) 0 false LSingular t 0) with
+          | IOk g => if_list f raw rd' ewt packed t (acc ++ [g])
+          | r => r
+          end
+        | ItPanic => IPanic
+        | _ => IErr
+        end
+      else IOk (GList acc)
+    end.
+
+  Fixpoint if_map (fuel : nat) (raw : list Z) (rd kk vwt : Z) (t : ftype) (si : list (list Z * gval)) (ii : list (Z * gval)) : ires :=
+    match fuel with
+    | O => IErr
+    | Datatypes.S f =>
+      if rd <? plen raw then
+        match pair_next raw rd kk vwt with
+        | PrErr => IErr
+        | PrPanic => IPanic
+        | PrOk k vs ve rd' =>
+          match rec (mk_anode (kind_of_type t) (slice raw vs ve) 0 false LSingular t 0) with
+          | IOk g =>
+            match k with
+            | KStr b => if_map f raw rd' kk vwt t (upsert_b b g si) ii
+            | KInt _ x => if_map f raw rd' kk vwt t si (upsert_z x g ii)
+            end
+          | r => r
+          end
+        end
+      else IOk (if kk =? 9 then GMapS si else GMapI ii)
+    end.
+
+  Definition interface_node (n : anode) : ires :=
+    let raw := an_raw n in
+    let fuel := Datatypes.S (length raw) in
+    if an_t n =? K_MESSAGE then
+      match msg_of n S with
+      | None => IUnmod
+      | Some md =>
+        match (if an_root n then Some (0, 0) else aread_length raw 0) with
+        | None => IErr
+        | Some (_, rd) => if_msg fuel md raw rd []
+        end
+      end
+    else if an_t n =? T_LIST then
+      match ctag raw 0 with
+      | None => IErr
+      | Some (_, wt0, tn) =>
+        if negb (wt0 =? 2) then IErr else
+        let packed := type_numeric (an_ty n) in
+        match (if packed then match aread_length raw tn with Some (_, r) => Some r | None => None end else Some 0) with
+        | None => IErr
+        | Some rd => if_list fuel raw rd (elem_wt (an_ty n)) packed (an_ty n) []
+        end
+      end
+    else if an_t n =? T_MAP then
+      match an_lbl n with
+      | LMap kk =>
+        if negb ((kk =? 9) || kind_is_int kk) then IErr else
+        match ctag raw 0 with
+        | None => IErr
+        | Some (_, wt0, _) => if negb (wt0 =? 2) then IErr else if_map fuel raw 0 kk (elem_wt (an_ty n)) (an_ty n) [] []
+        end
+      | _ => IUnmod
+      end
+    else scalar_interface fx (an_t n) raw.
+End Iface.
+
+Fixpoint a_interface (fuel : nat) (fx : fixes) (S : schema) (n : anode) : ires :=
+  match fuel with
+  | O => IErr
+  | Datatypes.S f => interface_node fx S (a_interface f fx S) n
   end.
